@@ -318,3 +318,80 @@ def install_bincount(R):
         E.assume(z3.ForAll([c], z3.Implies(z3.And(c >= 0, c < L, z3.ForAll([i], z3.Implies(z3.And(i >= 0, i < n), fs.get(i) != c))), out.get(c) == 0)))
         return out
     R.fns["numpy.bincount"] = _bincount
+
+
+
+def install_kmeanspp_helpers(R):
+    """ASSUMED models of the numpy / scikit-learn helpers of the k-means++ seeding (_k_init): only ranges and shapes"""
+    from .values import Obj
+
+    def _random_sample(E, recv, args, kwargs, node):
+        """RandomState.random_sample(n): n numbers in [0, 1)"""
+        size = args[0] if args else kwargs.get("size")
+        E.trace.append(dict(op="random_sample", rng=recv.fields["$rng"], obj=recv))
+        if size is None:
+            v = E.real("rnd")
+            E.assume(z3.And(v >= 0, v < 1))
+            return v
+        E.safety("random-sample-size", z(size) >= 0, node, "ValueError")
+        out = NdArr.fresh("rnd", (size,), "real")
+        i = z3.Int(fresh_name("ri"))
+        E.assume(z3.ForAll([i], z3.And(out.get(i) >= 0, out.get(i) < 1), patterns=[out.get(i)]))
+        return out
+    R.methods[("RandomState", "random_sample")] = _random_sample
+
+    def _stable_cumsum(E, arr, axis=None, **kw):
+        """sklearn.utils.extmath.stable_cumsum(a): cumulative sums of the flattened array (values not modelled)"""
+        if not isinstance(arr, NdArr) or axis is not None:
+            raise Unsupported("stable_cumsum(%r, axis=%r)" % (arr, axis))
+        if arr.ndim == 1:
+            return NdArr.fresh("cumsum", (arr.shape[0],), "real")
+        if arr.ndim == 2 and isinstance(arr.shape[0], int) and arr.shape[0] == 1:
+            return NdArr.fresh("cumsum", (arr.shape[1],), "real")
+        raise Unsupported("stable_cumsum of a general %d-d array" % arr.ndim)
+    R.fns["sklearn.utils.extmath.stable_cumsum"] = _stable_cumsum
+
+    def _searchsorted(E, a, v, side="left", sorter=None):
+        """numpy.searchsorted(a, v): one insertion position in [0, len(a)] per element of v (which one is not modelled)"""
+        if not (isinstance(a, NdArr) and a.ndim == 1 and isinstance(v, NdArr) and v.ndim == 1 and sorter is None):
+            raise Unsupported("searchsorted(%r, %r)" % (a, v))
+        out = NdArr.fresh("positions", (v.shape[0],), "int")
+        i = z3.Int(fresh_name("si"))
+        E.assume(z3.ForAll([i], z3.And(out.get(i) >= 0, out.get(i) <= z(a.shape[0])), patterns=[out.get(i)]))
+        return out
+    R.fns["numpy.searchsorted"] = _searchsorted
+
+    def _clip(E, a, a_min=None, a_max=None, out=None, **kw):
+        """numpy.clip on an integer / real vector, optionally in place (out=a)"""
+        if not (isinstance(a, NdArr) and a.ndim == 1) or kw:
+            raise Unsupported("clip(%r)" % (a,))
+        fs = a.snapshot()
+
+        def f(i):
+            v = fs.get(i)
+            if a_max is not None:
+                hi = z(a_max)
+                v = z3.If(v > hi, (z3.ToReal(hi) if z3.is_real(v) and z3.is_int(hi) else hi), v)
+            if a_min is not None:
+                lo = z(a_min)
+                v = z3.If(v < lo, (z3.ToReal(lo) if z3.is_real(v) and z3.is_int(lo) else lo), v)
+            return v
+        if out is None:
+            return NdArr.from_fn("clipped", a.shape, a.kind, f)
+        if out is not a:
+            raise Unsupported("clip with out= another array")
+        E.note_write(a)
+        a.assign_fn(f)
+        return a
+    R.fns["numpy.clip"] = _clip
+
+    def _argmin1(old):
+        def f(E, a, axis=None, **kw):
+            if isinstance(a, NdArr) and a.ndim == 1 and axis is None and not kw:
+                E.safety("argmin-of-empty", z(a.shape[0]) >= 1, None, "ValueError")
+                v = E.int("argmin")
+                E.assume(z3.And(v >= 0, v < z(a.shape[0])))      # ASSUMED: a position of the vector (that it holds a smallest entry is not modelled)
+                return v
+            return old(E, a, axis=axis, **kw)
+        return f
+    R.fns["numpy.argmin"] = _argmin1(R.fns["numpy.argmin"])
